@@ -28,10 +28,11 @@ structure Seg where
   done : Option String
   deriving Repr, DecidableEq
 
-/-- a DATA frame as the encoder keeps it (`frame::Data<Prioritized<B>>`): its stream, the octets of
+/-- a DATA frame as the encoder keeps it (`frame::Data<Prioritized<B>>`): its stream (store key and id), the octets of
     the user's buffer that lie *behind* the chunk being sent (`inner.get_ref().remaining()` once the
     chunk is written) and `Prioritized::end_of_stream` -/
 structure DataFrame where
+  key : Nat
   sid : Nat
   rest : Nat
   eos : Bool
@@ -62,6 +63,8 @@ structure Writer where
 structure Tio where
   rd : Bytes := []
   eof : Bool := false
+  rdErr : Option String := none     -- `io::ErrorKind` every read answers once `rd` is drained
+  wrErr : Option String := none     -- `io::ErrorKind` every write answers
   budget : Option Nat := none
   shutdownCalled : Bool := false
   readWaker : Option String := none
@@ -153,49 +156,63 @@ def writeSegs : List Seg → Nat → Nat → List String → List Seg × Nat × 
       | none => writeSegs rest (n - seg.bytes) (part + seg.bytes) out
     else ({ seg with bytes := seg.bytes - n } :: rest, part + n, out)
 
-/-- `FramedWrite::flush` against the transport's byte budget: `true` = `Poll::Ready(Ok(()))`,
-    `false` = `Poll::Pending` (the transport keeps the waker `tag`).  Zero-length segments (a frame
-    needs at least its 9 octets, so there are none) would not be written by the Rust either. -/
-def flush (w : Writer) (io : Tio) (tag : String) : Writer × Tio × Bool :=
+/-- `Poll<io::Result<()>>` of the write half -/
+inductive WRes where
+  | ready
+  | pending
+  | err (kind : String)
+  deriving Repr, DecidableEq
+
+/-- `FramedWrite::flush` against the transport's byte budget and error switch.  On `Pending` the
+    transport keeps the waker `tag`.  Zero-length segments (a frame needs at least its 9 octets, so
+    there are none) would not be written by the Rust either. -/
+def flush (w : Writer) (io : Tio) (tag : String) : Writer × Tio × WRes :=
   let total := w.bufRemaining + (match w.next with | some n => n.remaining | none => 0)
-  let n := match io.budget with | none => total | some k => min k total
-  let nBuf := min n w.bufRemaining
-  let (buf', part, out) := writeSegs w.buf nBuf io.partialOctets []
-  let nNext := n - nBuf
-  let (next', part, out) :=
-    match w.next with
-    | some nd =>
-      if nNext = 0 then (some nd, part, out)
-      else if nNext ≥ nd.remaining then (some { nd with remaining := 0 }, 0, out ++ [nd.render])
-      else (some { nd with remaining := nd.remaining - nNext }, part + nNext, out)
-    | none => (none, part, out)
-  let io := { io with budget := io.budget.map (· - n), partialOctets := part, tx := io.tx ++ out }
-  let w := { w with buf := buf', next := next' }
-  if n < total then (w, { io with writeWaker := some tag }, false)
-  else (w.unsetFrame, io, true)
+  if total > 0 && io.wrErr.isSome then (w, io, .err (io.wrErr.getD ""))
+  else
+    let n := match io.budget with | none => total | some k => min k total
+    let nBuf := min n w.bufRemaining
+    let (buf', part, out) := writeSegs w.buf nBuf io.partialOctets []
+    let nNext := n - nBuf
+    let (next', part, out) :=
+      match w.next with
+      | some nd =>
+        if nNext = 0 then (some nd, part, out)
+        else if nNext ≥ nd.remaining then (some { nd with remaining := 0 }, 0, out ++ [nd.render])
+        else (some { nd with remaining := nd.remaining - nNext }, part + nNext, out)
+      | none => (none, part, out)
+    let io := { io with budget := io.budget.map (· - n), partialOctets := part, tx := io.tx ++ out }
+    let w := { w with buf := buf', next := next' }
+    if n < total then (w, { io with writeWaker := some tag }, .pending)
+    else (w.unsetFrame, io, .ready)
 
 /-- `FramedWrite::poll_ready` -/
-def pollReadyW (w : Writer) (io : Tio) (tag : String) : Writer × Tio × Bool :=
+def pollReadyW (w : Writer) (io : Tio) (tag : String) : Writer × Tio × WRes :=
   if !w.hasCapacity then
-    let (w, io, ok) := flush w io tag
-    if !ok then (w, io, false)
-    else (w, io, w.hasCapacity)
-  else (w, io, true)
+    match flush w io tag with
+    | (w, io, .ready) => (w, io, if w.hasCapacity then .ready else .pending)
+    | r => r
+  else (w, io, .ready)
 
 /-- `FramedWrite::shutdown` (`poll_shutdown` of the harness transport is always ready) -/
-def shutdownW (w : Writer) (io : Tio) (tag : String) : Writer × Tio × Bool :=
-  let (w, io, ok) := if !w.finalFlushDone then
-      let (w, io, ok) := flush w io tag
-      (if ok then { w with finalFlushDone := true } else w, io, ok)
-    else (w, io, true)
-  if !ok then (w, io, false) else (w, { io with shutdownCalled := true }, true)
+def shutdownW (w : Writer) (io : Tio) (tag : String) : Writer × Tio × WRes :=
+  let (w, io, r) := if !w.finalFlushDone then
+      match flush w io tag with
+      | (w, io, .ready) => ({ w with finalFlushDone := true }, io, WRes.ready)
+      | r => r
+    else (w, io, .ready)
+  match r with
+  | .ready => (w, { io with shutdownCalled := true }, .ready)
+  | r => (w, io, r)
 
-/-- the codec: writer, reader, transport -/
+/-- the codec: writer, reader, transport; `hasErrored` / `eofSeen` are the flags of tokio-util's
+    `FramedRead` state machine (`has_errored`, `eof`) -/
 structure Codec where
   w : Writer := {}
   r : CodecRead.Reader := CodecRead.Reader.new Generated.Consts.DEFAULT_MAX_FRAME_SIZE
   io : Tio := {}
-  dead : Bool := false      -- the read half returned an error: `poll_next` must not be called again
+  hasErrored : Bool := false
+  eofSeen : Bool := false
   deriving Repr
 
 /-- what `Codec::poll_next` yields -/
@@ -203,25 +220,40 @@ inductive Polled where
   | pending
   | frame (f : Frame.Frame)
   | err (e : CodecRead.RErr)
+  | ioErr (kind : String) (msg : Option String)
   | eof
   deriving Repr
 
-/-- `FramedRead::poll_next`: everything the transport holds is moved into the reassembly buffer,
-    then one frame at a time is decoded (`Reader.drain` with one unit of fuel; frames that decode to
-    nothing — unknown types, header fragments — are skipped by the loop) -/
+/-- `FramedRead::poll_next` (h2's, on top of tokio-util's): everything the transport holds is moved
+    into the reassembly buffer, then one frame at a time is decoded (`Reader.drain` with one unit of
+    fuel; frames that decode to nothing — unknown types, header fragments — are skipped by the
+    loop).  When no complete frame is left: read error, end of input (`decode_eof`: leftover octets
+    are an error), or `Pending`.  After an error of the byte-level decoder or of the transport the
+    next call answers end-of-stream once (`has_errored`). -/
 def pollNext : Nat → Codec → String → Codec × Polled
   | 0, c, _ => (c, .pending)
   | fuel + 1, c, tag =>
-    let r0 := { c.r with buf := c.r.buf ++ c.io.rd }
-    let c := { c with r := r0, io := { c.io with rd := [] } }
-    let (r1, items, _) := CodecRead.Reader.drain 1 r0 []
-    let c1 := { c with r := r1 }
-    match items with
-    | .frame f :: _ => (c1, .frame f)
-    | .err e :: _ => ({ c1 with dead := true }, .err e)
-    | [] =>
-      if r1.buf.length < r0.buf.length then pollNext fuel c1 tag
-      else if c.io.eof then (c1, .eof)
-      else ({ c1 with io := { c1.io with readWaker := some tag } }, .pending)
+    if c.hasErrored then ({ c with hasErrored := false }, .eof)
+    else
+      let r0 := { c.r with buf := c.r.buf ++ c.io.rd }
+      let c := { c with r := r0, eofSeen := if c.io.rd.isEmpty then c.eofSeen else false, io := { c.io with rd := [] } }
+      let (r1, items, _) := CodecRead.Reader.drain 1 r0 []
+      let c1 := { c with r := r1 }
+      match items with
+      | .frame f :: _ => (c1, .frame f)
+      | .err e :: _ =>
+        -- a frame longer than the maximum is an error of `LengthDelimitedCodec` itself
+        let lengthError := match e with | .goAway code _ => code == CodecRead.FRAME_SIZE_ERROR | _ => false
+        ({ c1 with hasErrored := lengthError }, .err e)
+      | [] =>
+        if r1.buf.length < r0.buf.length then pollNext fuel c1 tag
+        else match c.io.rdErr with
+          | some kind => ({ c1 with hasErrored := true }, .ioErr kind none)
+          | none =>
+            if c.io.eof then
+              if c1.eofSeen then (c1, .eof)
+              else if r1.buf.isEmpty then ({ c1 with eofSeen := true }, .eof)
+              else ({ c1 with eofSeen := true, hasErrored := true }, .ioErr "Other" (some "bytes remaining on stream"))
+            else ({ c1 with io := { c1.io with readWaker := some tag } }, .pending)
 
 end H2V.Model.Conn
